@@ -23,6 +23,8 @@ def run(ctx, model_ok, deep=False):
         ("alg-matrix", None, S.falsify_accept,
          "all cells: configured alg x key x route; 23 header variants x signature classes incl. empty third segment", True),
         ("token-shapes", S.token_shapes, S.falsify_accept, "2, 3 and 4+ segment shapes with empty/non-empty parts under keyless and keyed checkers", True),
+        ("long-inputs", S.long_inputs_suite, S.falsify_long_inputs,
+         "alg header names of 1-20, 180-300, 400, 511-513, 767/768, 1000-1025, 4096, 20000 characters (bare and appended to none/HS256/RS256) on an unkeyed and a keyed checker: a name that merely starts with `none` is not `none`", False),
         ("builder-routes", S.builder_routes_suite, S.falsify_builder_routes,
          "every pool key x JWK alg attribute x private/public x explicit alg x route {setkey, callback sets key only, callback sets key and alg, setkey then callback removes key}; token decoded by an independent reader", True),
     ])
